@@ -3,9 +3,9 @@ import OpcuaModel.Model.Browse
 import OpcuaModel.Gen.RefTypes
 /-
   Driver for C33 (the HasSubtype forest is the generated one).
-    b <dir> <refType> <sub 0|1> <mask> <ref>*   → panic | ok <type:fwd:target>*   (implementation order)
+    b <dir> <refType> <sub 0|1> <mask> <ref>*   → ok <type:fwd:target>*   (implementation order)
         ref = type:fwd(0|1):target:storedClass:nil(0|1)
-    srt <t1> <t2> <sub 0|1>                     → yes | no | panic
+    srt <t1> <t2> <sub 0|1>                     → yes | no
     subs <t>                                    → the list getSubRefs returns (`-` when empty)
 -/
 open Opcua Opcua.Browse
@@ -19,20 +19,17 @@ def parseRef (s : String) : Option Ref :=
 
 def showRef (r : Ref) : String := s!"{r.refType}:{if r.isForward then 1 else 0}:{r.target}"
 
-def showTri : Tri → String
-  | .yes => "yes" | .no => "no" | .panic => "panic"
+def showB (b : Bool) : String := if b then "yes" else "no"
 
 def handle : List String → String
   | "b" :: dir :: rt :: sub :: mask :: refs =>
     match dir.toNat?, rt.toNat?, sub.toNat?, mask.toNat?, refs.mapM parseRef with
     | some d, some t, some s, some m, some rs =>
-      match browse Gen.refTypeSubs Gen.refTypeFuel ⟨d, t, s == 1, m⟩ rs with
-      | .panic => "panic"
-      | .ok l => " ".intercalate ("ok" :: l.map showRef)
+      " ".intercalate ("ok" :: (browse Gen.refTypeSubs Gen.refTypeFuel ⟨d, t, s == 1, m⟩ rs).map showRef)
     | _, _, _, _, _ => "bad-op"
   | ["srt", a, b, s] =>
     match a.toNat?, b.toNat?, s.toNat? with
-    | some t1, some t2, some sub => showTri (suitableRefType Gen.refTypeSubs Gen.refTypeFuel t1 t2 (sub == 1))
+    | some t1, some t2, some sub => showB (suitableRefType Gen.refTypeSubs Gen.refTypeFuel t1 t2 (sub == 1))
     | _, _, _ => "bad-op"
   | ["subs", a] =>
     match a.toNat? with
